@@ -4,3 +4,4 @@ import OsyrisProofs.C07
 #print axioms Osyris.C07.C07_logic
 #print axioms Osyris.C07.C07_logic_table
 #print axioms Osyris.C07.C07_cmp_current
+#print axioms Osyris.C07.C07_plan_agrees
